@@ -20,6 +20,7 @@ EXTRA = [
     ('cint', 'division-signs', 'i1 i2 k2', 'if (i2 /= 0) then\n  k2 = i1/i2 + (-i1)/2 - i1/(-2) + (i1 - 7)/3\nend if'),
     ('cint', 'int-power', 'i1 k2', 'k2 = i1**2 - i1**3 + 2**3 - (-i1)**2'),
     ('cint', 'int-real-mixing', 'i1 x k2 s', 'k2 = i1*x\ns = i1/2 + x/2 + i1/2.0'),
+    ('cint', 'cast-of-mod', 'i1 s', 's = real(mod(i1, 3), kind=real64)/2 + real(mod(i1, 4)*2, kind=real64)'),
     ('cint', 'nint-int', 'x k2', 'k2 = int(x) + nint(x)'),
     ('ccontrol', 'select-case', 'i1 k2', 'select case (i1)\ncase (1)\n  k2 = 10\ncase (2, 3)\n  k2 = 20\ncase (4:6)\n  k2 = 30\ncase default\n  k2 = -1\nend select'),
     ('ccontrol', 'select-case-open-lower', 'i1 k2', 'select case (i1)\ncase (:2)\n  k2 = 1\ncase (5)\n  k2 = 2\ncase default\n  k2 = 3\nend select'),
